@@ -18,6 +18,7 @@ import (
 	"time"
 
 	res "github.com/jirenius/go-res"
+	"github.com/jirenius/go-res/logger"
 	"github.com/jirenius/go-res/verifhook"
 	nats "github.com/nats-io/nats.go"
 
@@ -247,7 +248,11 @@ func (r *runner) sendRequest(cn *conn, inCh chan *nats.Msg, g string) (ok bool) 
 		return false
 	}
 	defer func() {
-		if recover() != nil { // send on closed channel: service closed the in-channel
+		if recover() != nil {
+			// send on closed channel although the connection is not closed yet (deliveries are made holding the
+			// connection's delivery lock, which Close takes): the service closed its in-channel before closing the
+			// connection, so a real connection delivering a request at that moment would panic
+			r.violation("deliver-panic: delivering a request panicked (send on closed channel) while the connection was still open")
 			ok = false
 			// the message was never delivered: forget its submission record (single sender: it is the last one)
 			r.lsub.mu.Lock()
@@ -288,7 +293,17 @@ func (r *runner) gate(pt string) {
 
 func (r *runner) newService(c *conn) *res.Service {
 	s := res.NewService("svc")
-	s.SetLogger(nil)
+	if raceMode {
+		// race-detector runs (C16): exercise the shipped loggers from all goroutines (every third service the
+		// std logger writing to a discarded stream, else the in-memory logger with tracing on)
+		if r.sc.Seed%3 == 0 {
+			s.SetLogger(logger.NewStdLogger()) // writes info/error lines to stderr, which the race driver discards
+		} else {
+			s.SetLogger(logger.NewMemLogger().SetTrace(true))
+		}
+	} else {
+		s.SetLogger(nil)
+	}
 	s.SetWorkerCount(r.sc.Workers)
 	s.SetInChannelSize(r.sc.InCh)
 	s.SetQueryEventDuration(15 * time.Millisecond)
@@ -998,9 +1013,12 @@ func runScenario(sc scenario) (Case, []ImplViolation, bool) {
 	return Case{Term: term, Desc: sc, Nontrivial: nt, Key: term}, r.impl, alive
 }
 
+var raceMode bool
+
 func main() {
-	prop := flag.String("prop", "C01", "C01|C02|C03")
+	prop := flag.String("prop", "C01", "C01|C02|C03|C16")
 	o := ParseOpts()
+	raceMode = *prop == "C16"
 	rng := NewRng(o.Seed)
 	var cases []Case
 	var impl []ImplViolation
